@@ -80,6 +80,133 @@ def class_attrs(cls: str) -> set[str]:
 ADMITS = {"timedelta": "timedelta", "Duration": "Duration", "pendulum.Duration": "Duration", "int": "int", "float": "float"}
 
 
+TAB: dict[str, bool | None] = {}
+
+
+def _arith_tabulate(ctx) -> None:
+    """ARITH.tabulated: every operator of Duration is evaluated with the checker's interpreter (rules/minieval.py, in the closed
+    world of rules/durstub.py) on instance stubs and native timedeltas of both signs - sub-second parts, day boundaries,
+    ties of the half-even division, one length beyond 2**53 microseconds - and the constructor call / number it produces is
+    compared with the same operation on the standard library's timedelta: the same length in microseconds, a result
+    rebuilt through the operand's class where a duration is due, a number for duration / duration; negation and integer
+    scaling component-wise on years and months."""
+    import datetime as _dt
+    from ..rules import durstub
+    m = pmod("duration")
+    TAB.clear()
+    D = durstub.D_US
+    S = [0, 1, -1, 999_999, 10**6, 1_500_000, -1_500_000, 2_500_000, D, -D - 1, 3 * D + 3723 * 10**6 + 4, -(10 * D + 11045 * 10**6 + 6),
+         400_000 * D + 86399 * 10**6 + 999_999, -(400_000 * D + 7)]
+    O = [1, -1, 2, 3, 10**6, 7 * 10**6 + 1, -(D + 5), 3 * D, 250_000, 1_000_000 * D + 3]
+    INTS = [1, -1, 2, 3, -7, 10, 10**6]
+    FLOATS = [0.5, -0.5, 1.5, 2.25, 0.1, -3.7, 1e-3, 3.0]
+
+    def us(td: _dt.timedelta) -> int:
+        return (td.days * 86400 + td.seconds) * 10**6 + td.microseconds
+
+    def td(n: int) -> _dt.timedelta:
+        return _dt.timedelta(microseconds=n)
+
+    try:
+        w = durstub.World(m)
+    except durstub.ERRORS as e:
+        ctx.unverified("ARITH.tabulated", "Duration", f"outside the checker's interpreter: {type(e).__name__}: {e}", m.rel)
+        return
+
+    def length(r) -> int:
+        if not isinstance(r, durstub.Rebuilt):
+            raise AssertionError(f"the result is `{r!r}`, not a value rebuilt through the operand's class")
+        y, mo, rest = durstub.rebuilt_value(r)
+        return (y * 365 + mo * 30) * D + rest
+
+    def operands(o: int):
+        return (("Duration", w.normalised(0, 0, o)), ("timedelta", td(o)))
+
+    def cases(op: str):
+        """(label, arguments, expected)"""
+        if op in ("__add__", "__radd__", "__sub__"):
+            for s_ in S:
+                for o in [0] + O:
+                    for kind, ov in operands(o):
+                        yield f"{s_}us {op} {kind}({o}us)", [w.normalised(0, 0, s_), ov], ("len", s_ - o if op == "__sub__" else s_ + o)
+        elif op == "__neg__":
+            for y, mo in ((0, 0), (2, -5), (-1, 3)):
+                for s_ in S:
+                    yield f"-(years={y}, months={mo}, {s_}us)", [w.normalised(y, mo, s_)], ("ymr", (-y, -mo, -s_))
+        elif op in ("__mul__", "__rmul__"):
+            for y, mo in ((0, 0), (2, -5)):
+                for s_ in S:
+                    for k in [0] + INTS:
+                        yield f"(years={y}, months={mo}, {s_}us) * {k}", [w.normalised(y, mo, s_), k], ("ymr", (y * k, mo * k, s_ * k))
+            for s_ in S:
+                for f in FLOATS:
+                    yield f"{s_}us * {f}", [w.normalised(0, 0, s_), f], ("len", us(td(s_) * f))
+        elif op == "__floordiv__":
+            for s_ in S:
+                for k in INTS:
+                    yield f"{s_}us // {k}", [w.normalised(0, 0, s_), k], ("len", us(td(s_) // k))
+                for o in O:
+                    for kind, ov in operands(o):
+                        yield f"{s_}us // {kind}({o}us)", [w.normalised(0, 0, s_), ov], ("num", td(s_) // td(o))
+        elif op == "__truediv__":
+            for s_ in S:
+                for k in INTS + FLOATS:
+                    yield f"{s_}us / {k}", [w.normalised(0, 0, s_), k], ("len", us(td(s_) / k))
+                for o in O:
+                    for kind, ov in operands(o):
+                        yield f"{s_}us / {kind}({o}us)", [w.normalised(0, 0, s_), ov], ("num", td(s_) / td(o))
+        elif op == "__mod__":
+            for s_ in S:
+                for o in O:
+                    for kind, ov in operands(o):
+                        yield f"{s_}us % {kind}({o}us)", [w.normalised(0, 0, s_), ov], ("len", us(td(s_) % td(o)))
+        elif op == "__divmod__":
+            for s_ in S:
+                for o in O:
+                    for kind, ov in operands(o):
+                        q, r = divmod(td(s_), td(o))
+                        yield f"divmod({s_}us, {kind}({o}us))", [w.normalised(0, 0, s_), ov], ("qr", (q, us(r)))
+
+    total = 0
+    for op in ("__add__", "__radd__", "__sub__", "__neg__", "__mul__", "__rmul__", "__floordiv__", "__truediv__", "__mod__", "__divmod__"):
+        if op not in w.meths:
+            continue
+        bad, n = [], 0
+        try:
+            for label, args, (kind, want) in cases(op):
+                got = w.call(op, args)
+                n += 1
+                try:
+                    if kind == "len":
+                        g = length(got)
+                    elif kind == "ymr":
+                        if not isinstance(got, durstub.Rebuilt):
+                            raise AssertionError(f"the result is `{got!r}`, not a value rebuilt through the operand's class")
+                        g = durstub.rebuilt_value(got)
+                    elif kind == "num":
+                        g = got
+                        if isinstance(got, (durstub.Stub, bool)) or type(got) is not type(want):
+                            raise AssertionError(f"the result is `{got!r}`; must be the {type(want).__name__} {want!r}")
+                    else:
+                        if not (isinstance(got, tuple) and len(got) == 2):
+                            raise AssertionError(f"the result is `{got!r}`, not a (quotient, remainder) pair")
+                        g = (got[0], length(got[1]))
+                    if g != want:
+                        bad.append(f"{label}: {g!r} (native timedelta: {want!r})")
+                except AssertionError as e:
+                    bad.append(f"{label}: {e}")
+        except durstub.ERRORS as e:
+            TAB[op] = None
+            ctx.unverified("ARITH.tabulated", f"Duration.{op}", f"outside the checker's interpreter: {type(e).__name__}: {e}", m.loc(w.meths[op]))
+            continue
+        total += n
+        TAB[op] = not bad
+        ctx.ob("ARITH.tabulated", f"Duration.{op}", not bad,
+               f"{n} operand combinations evaluated: " + (f"differs from the native operation: {bad[:3]}" if bad else
+               "the result has the length of the native timedelta operation and is rebuilt through the operand's class"), m.loc(w.meths[op]))
+    ctx.count("arith_evaluations", total)
+
+
 def _protocol(ctx) -> None:
     m = pmod("duration")
     for op in OPS:
@@ -107,13 +234,13 @@ def _protocol(ctx) -> None:
                 continue
             # result type
             if admitted and admitted <= {"timedelta"} and op in ("__floordiv__", "__truediv__"):
-                ok = not (isinstance(val, ast.Call) and "__class__" in un(val.func))
+                ok = not (isinstance(val, ast.Call) and "__class__" in un(val.func)) or bool(TAB.get(op))
                 ctx.ob("DUNDER.result", f"Duration.{op}[{tag}]", ok, f"duration {op} duration returns `{sval[:60]}`; must be a number", m.loc(ex[2]))
             elif op == "__divmod__":
-                ok = isinstance(val, ast.Tuple) and len(val.elts) == 2 and nun(val.elts[1]).startswith("self.__class__(")
+                ok = (isinstance(val, ast.Tuple) and len(val.elts) == 2 and nun(val.elts[1]).startswith("self.__class__(")) or bool(TAB.get(op))
                 ctx.ob("DUNDER.result", f"Duration.{op}[{tag}]", ok, f"returns `{sval[:60]}`; must be (q, self.__class__(...))", m.loc(ex[2]))
             elif sval != "NotImplemented":
-                ok = isinstance(val, ast.Call) and un(val.func) == "self.__class__"
+                ok = (isinstance(val, ast.Call) and un(val.func) == "self.__class__") or bool(TAB.get(op))    # or: rebuilt through the class on every stub
                 ctx.ob("DUNDER.result", f"Duration.{op}[{tag}]", ok,
                        f"returns `{sval[:60]}`; the result must be built through self.__class__(...)", m.loc(ex[2]))
             # attribute-under-guard along this path
@@ -202,7 +329,7 @@ def _units(ctx) -> None:
             ("__truediv__", "float"): (E(f"{B} * self._to_microseconds()"), A)}
     for k, v in want.items():
         got = found.get(k)
-        ctx.ob("RATIO", f"Duration.{k[0]}/{k[1]}", got == v,
+        ctx.ob("RATIO", f"Duration.{k[0]}/{k[1]}", got == v or bool(TAB.get(k[0])),
                f"_divide_and_round{got}; the length in microseconds must be {'multiplied' if k[0] == '__mul__' else 'divided'} "
                f"by the exact ratio: expected {v}", m.rel)
     # int scaling / floor division keep years and months
@@ -213,7 +340,7 @@ def _units(ctx) -> None:
             exact = {"years": "self._years * other", "months": "self._months * other", "microseconds": "self._to_microseconds() * other"}
             lossy = dict(exact, seconds="self._total * other")
             lossy.pop("microseconds")
-            ctx.ob("SCALE.int", "Duration.__mul__/int", k == exact,
+            ctx.ob("SCALE.int", "Duration.__mul__/int", k == exact or bool(TAB.get("__mul__")),
                    f"int scaling builds {k}; years, months and the remainder must all be multiplied"
                    + ("; the remainder goes through float seconds (self._total), which is not exact to the microsecond beyond ~285 years"
                       if k == lossy else "; expected the exact integer microseconds self._to_microseconds() * other"), m.loc(ex[2]))
@@ -227,7 +354,7 @@ def _units(ctx) -> None:
                 why = f"returns `{got}`; must combine the exact lengths of both operands in microseconds"
                 if got == f"self.__class__(seconds=self.total_seconds() {meth} other.total_seconds())":
                     why += " - total_seconds() is a float, exact to the microsecond only up to ~285 years (the native operation is exact)"
-                ctx.ob("ADDSUB", f"Duration.{name}", ok, why, m.loc(ex[2]))
+                ctx.ob("ADDSUB", f"Duration.{name}", ok or bool(TAB.get(name)), why, m.loc(ex[2]))
     # the helper the operators rely on: exact microseconds of the *native* slots (years and months included)
     try:
         hf = m.func("_native_microseconds")
@@ -238,7 +365,10 @@ def _units(ctx) -> None:
         want_w = {f"timedelta.days.__get__({p0})": 86400 * 10**6, f"timedelta.seconds.__get__({p0})": 10**6, f"timedelta.microseconds.__get__({p0})": 1}
         ctx.ob("UNITS.native", "_native_microseconds", w == want_w, f"weights {w}; must be days*86400e6 + seconds*1e6 + microseconds of the native slots", m.loc(hf))
     except core.AnchorMissing:
-        ctx.unverified("UNITS.native", "_native_microseconds", "helper not found", m.rel)
+        if TAB.get("__add__") and TAB.get("__sub__"):
+            ctx.ob("UNITS.native", "_native_microseconds", True, "no such helper; + and - are exact on every stub (ARITH.tabulated)", m.rel, nontrivial=False)
+        else:
+            ctx.unverified("UNITS.native", "_native_microseconds", "helper not found", m.rel)
     except core.Unsupported as e:
         ctx.unverified("UNITS.native", "_native_microseconds", str(e), m.rel)
 
@@ -310,6 +440,7 @@ def _ctor_lsp(ctx) -> None:
 
 def run(ctx) -> None:
     ctx.explanation = EXPLANATION
+    ctx.step(_arith_tabulate, ctx)
     ctx.step(_protocol, ctx)
     ctx.step(_units, ctx)
     ctx.step(_reference, ctx)
